@@ -106,9 +106,31 @@ func (st LString) Format(f fmt.State, c rune) {
 		} else {
 			defaultFormat(string(st), f, 's')
 		}
+	case 'q':
+		f.Write(quoteLua(string(st)))
 	default:
 		defaultFormat(string(st), f, c)
 	}
+}
+
+// quoteLua writes s the way string.format("%q") of Lua 5.1 does, so that the
+// Lua reader yields s back (Go's %q uses \x.. and \u.... escapes Lua lacks).
+func quoteLua(s string) []byte {
+	buf := make([]byte, 0, len(s)+2)
+	buf = append(buf, '"')
+	for i := 0; i < len(s); i++ {
+		switch c := s[i]; c {
+		case '"', '\\', '\n':
+			buf = append(buf, '\\', c)
+		case '\r':
+			buf = append(buf, '\\', 'r')
+		case 0:
+			buf = append(buf, '\\', '0', '0', '0')
+		default:
+			buf = append(buf, c)
+		}
+	}
+	return append(buf, '"')
 }
 
 func (nm LNumber) String() string {
